@@ -2192,6 +2192,38 @@ fn get_flow_assignment_info(
     Ok(info)
 }
 
+/// Narrows the assigned (RHS) type against the variable's current type.
+///
+/// Every member of a union RHS may be the value that is actually assigned, so the members are
+/// narrowed one by one and a member the current type says nothing about is kept as it is
+/// (`narrow_down_type` alone would drop it, e.g. `nil` from `string?` assigned to a `string` slot).
+fn narrow_assigned_type(
+    db: &DbIndex,
+    source_type: &LuaType,
+    expr_type: &LuaType,
+    declared: Option<LuaType>,
+) -> Option<LuaType> {
+    let LuaType::Union(expr_union) = expr_type else {
+        return narrow_down_type(db, source_type.clone(), expr_type.clone(), declared);
+    };
+
+    let mut any_narrowed = false;
+    let members = expr_union
+        .into_vec()
+        .into_iter()
+        .map(|member| {
+            match narrow_down_type(db, source_type.clone(), member.clone(), declared.clone()) {
+                Some(narrowed) => {
+                    any_narrowed = true;
+                    narrowed
+                }
+                None => member,
+            }
+        })
+        .collect::<Vec<_>>();
+    any_narrowed.then(|| TypeOps::union_all(db, members))
+}
+
 fn finish_assignment_result(
     db: &DbIndex,
     cache: &mut LuaInferCache,
@@ -2231,7 +2263,7 @@ fn finish_assignment_result(
                 _ => None,
             });
 
-        narrow_down_type(db, source_type.clone(), expr_type.clone(), declared)
+        narrow_assigned_type(db, source_type, expr_type, declared)
     };
 
     if reuse_source_narrowing || preserves_assignment_expr_type(expr_type) {
